@@ -461,3 +461,13 @@ for _n, _h in HARNESSES.items():
 
 for _n in ("c04_bc_shared_inclone", "c04_bc_streams_inclone", "c18_bc_shared_inclone_mw", "c05_mp_shared_all"):
     HARNESSES[_n]["mem_gb"] = 26
+for n, w in (("c16_scan_vs_add", "the writer's announce+scan preempted everywhere (shared accesses and allocation calls) by the consumer's announce+add_stream, whose retirement crosses the reclamation threshold"),
+             ("c16_add_vs_scan", "the consumer's announce+add_stream (incl. inside free / start_free / try_freeing) preempted everywhere by the writer's announce+scan"),
+             ("c16_scan_vs_remove", "the writer's announce+scan preempted everywhere by the consumer's announce+remove_reader (two retirements crossing the threshold)"),
+             ("c16_remove_vs_scan", "the consumer's announce+remove_reader preempted everywhere by the writer's announce+scan")):
+    H(n, M, "C16", ["C16", "C17"], "quick",
+      "REAL MemoryManager + ReadCursor on the harness stack, 19-20 pre-loaded retirements: " + w + "; CBMC pointer checks are the oracle",
+      "2 tokens, depth 1, budget 1", rules=MEMRULES, fp_restrict=FP, builtin_oracle=True, unwind=6, mem_gb=24)
+for n in ("c16_protocol_o0", "c16_protocol_o1"):
+    HARNESSES[n]["tier"] = "thorough"
+    HARNESSES[n]["timeout"] = 3000
